@@ -43,11 +43,12 @@ def h_cfn(E, form):
     from mitxgraders.baseclasses import ItemGrader
     g = E.real('g', 0, 1)
     val = {'True': True, 'False': False, 'partial': 'partial', 'Partial': 'Partial', 'dict': {'grade_decimal': g}, 'dictmsg': {'grade_decimal': g, 'msg': 'hi'},
-           'one': 1, 'zero': 0}[form]
+           'one': 1, 'zero': 0, 'dict-ok-partial': {'ok': 'partial', 'grade_decimal': g, 'msg': 'hi'}, 'dict-ok-true': {'ok': True, 'grade_decimal': g},
+           'dict-ok-false': {'ok': False, 'grade_decimal': g}}[form]
     r = ItemGrader.standardize_cfn_return(val)
     _entry_ok(E, r)
     if form.startswith('dict'):
-        E.check('grade-preserved', near_eq(r['grade_decimal'], g) and r['msg'] == ('hi' if form == 'dictmsg' else ''))
+        E.check('grade-preserved', near_eq(r['grade_decimal'], g) and r['msg'] == ('hi' if form in ('dictmsg', 'dict-ok-partial') else ''))
     return str(r['ok'])
 
 
@@ -133,6 +134,33 @@ def h_formula(E, cls, inp, debug):
     return str(r['ok'])
 
 
+def h_matrix_entry(E, credit, inp):
+    """entry-wise partial credit at every setting (0, 1, a fraction, proportional) with a partly correct submission"""
+    import numpy as np
+    from mitxgraders import MatrixGrader
+    from mitxgraders.sampling import VariableSamplingSet
+    from mitxgraders.helpers.calc.math_array import MathArray
+    import voluptuous
+    cnt = [0]
+
+    class ArrSampler(VariableSamplingSet):
+        schema_config = voluptuous.Schema({})
+
+        def gen_sample(self):
+            cnt[0] += 1
+            a = np.empty((2,), dtype=object)
+            for i in range(2):
+                a[i] = E.real('v%d_%d' % (cnt[0], i), 1, 2)
+            return MathArray(a.astype(float) if E.mode == 'conc' else a)
+    g = MatrixGrader(answers='2*v', variables=['v'], sample_from={'v': ArrSampler()}, samples=1, max_array_dim=1, entry_partial_credit=credit, tolerance=0.01)
+    s = {'right': 'v+v', 'one-entry-wrong': 'v+v+[0,5]', 'all-wrong': 'v+v+[5,5]'}[inp]
+    r = g(None, s)
+    _entry_ok(E, r)
+    want = {'right': 1, 'all-wrong': 0, 'one-entry-wrong': 0.5 if credit == 'proportional' else credit}[inp]
+    E.check('entry-credit', near_eq(r['grade_decimal'], want))
+    return str(r['ok'])
+
+
 def h_matrix(E, inp):
     import numpy as np
     from mitxgraders import MatrixGrader
@@ -209,7 +237,7 @@ def harnesses(tier):
 
     def add(fn, base, params, bounds, **kw):
         hs.append(Harness(pname(base, **params), fn, tuple(params.values()), FUNCS, bounds, STUBS, **kw))
-    for f in ('True', 'False', 'partial', 'Partial', 'dict', 'dictmsg', 'one', 'zero'):
+    for f in ('True', 'False', 'partial', 'Partial', 'dict', 'dictmsg', 'one', 'zero', 'dict-ok-partial', 'dict-ok-true', 'dict-ok-false'):
         add(h_cfn, 'cfn', dict(form=f), 'grade any real in [0,1]')
     for flag in (True, False):
         add(h_single_attempt, 'single_attempt', dict(msg=flag), 'grade, schedule value any reals in [0,1]; attempt in [-1,4]', expect_inconclusive=True)
@@ -220,6 +248,9 @@ def harnesses(tier):
         for inp in ('right', 'alt', 'wrong'):
             for dbg in (False, True):
                 add(h_formula, cls, dict(cls=cls, inp=inp, debug=dbg), 'symbolic samples, symbolic partial credit')
+    for credit in (0, 1, 0.5, 'proportional'):
+        for inp in ('right', 'one-entry-wrong', 'all-wrong'):
+            add(h_matrix_entry, 'matrix_entry', dict(credit=credit, inp=inp), 'symbolic 2-vector sample')
     for inp in ('right', 'wrong', 'scaled'):
         add(h_matrix, 'matrix', dict(inp=inp), 'symbolic 2-vector samples')
     for inp in ('right', 'shifted', 'wrong'):
